@@ -144,7 +144,7 @@ def check(run):
         if k.startswith("gate:"):
             verify.verify(run, c.E, c.contracts[k], crosscheck=False)
     for k in ("de:common.Header", "de:treeinfo.Header", "prop:common.Header.version_tuple", "gate2:images.Image.subvariant",
-              "gate2:images.Images.deserialize", "meth:rpms.Rpms.deserialize_0_3", "meth:rpms.Rpms.deserialize_0_3:2v", "meth:images.Images._add_1_1", "meth:images.Images._add_1_1:any"):
+              "gate2:images.Images.deserialize", "meth:rpms.Rpms.deserialize_0_3", "meth:rpms.Rpms.deserialize_0_3:2v", "meth:rpms.Rpms.deserialize_0_3:any", "meth:images.Images._add_1_1", "meth:images.Images._add_1_1:any"):
         if k in c.contracts:
             verify.verify(run, c.E, c.contracts[k], crosscheck=False)
     contract_samples(run, c, ["gate:composeinfo.Variant.deserialize.children", "gate:composeinfo.Compose.deserialize.fields",
